@@ -279,9 +279,10 @@ let run_mgr toks =
       else begin
         let m = build_mem g in
         let key = List.fold_left (fun acc op -> match op with ["key"; k; _] -> Some (bytes_of_hex k) | _ -> acc) None g in
+        let mt = List.fold_left (fun acc op -> match op with ["mt"; t] -> n_of_string t | _ -> acc) N0 g in
         Some (match key with
-            | Some k -> (k, keyed_cass k m.ms_cass)
-            | None -> (zero_hash, m.ms_cass))
+            | Some k -> (k, keyed_cass k m.ms_cass, mt)
+            | None -> (zero_hash, m.ms_cass, mt))
       end) groups) in
   let cap = List.fold_left (fun acc op -> match op with ["cap"; n] -> n_of_string n | _ -> acc) (n_of_string "67108864") ops in
   let tgt = List.fold_left (fun acc op -> match op with ["tgt"; n] -> n_of_string n | _ -> acc) (n_of_string "67108864") ops in
@@ -291,19 +292,18 @@ let run_mgr toks =
       | ["R"; i] ->
         let i = int_of_string i in
         if i < Array.length shards then begin
-          let (k, cass) = shards.(i) in
+          let (k, cass, _) = shards.(i) in
           (* the shard's identity: 32 bytes made from its index (two groups never serialize to the same bytes in generated cases) *)
           step (MRegister { sh_hash = List.init 32 (fun _ -> n_of_int i); sh_key = k; sh_cass = cass }) end;
         None
       | ["RB"; l] ->
-        (* one call with several files: `RB i:mtime,j:mtime,..` in argument order *)
-        let items = List.filter_map (fun x -> match String.split_on_char ':' x with
-            | [i; mt] -> let i = int_of_string i in
-              if i < Array.length shards then begin
-                let (k, cass) = shards.(i) in
-                Some (n_of_string mt, { sh_hash = List.init 32 (fun _ -> n_of_int i); sh_key = k; sh_cass = cass }) end
-              else None
-            | _ -> None) (String.split_on_char ',' l) in
+        (* one call with several files, in argument order; their modification times come from their groups (`mt`) *)
+        let items = List.filter_map (fun x ->
+            let i = int_of_string x in
+            if i < Array.length shards then begin
+              let (k, cass, mt) = shards.(i) in
+              Some (mt, { sh_hash = List.init 32 (fun _ -> n_of_int i); sh_key = k; sh_cass = cass }) end
+            else None) (String.split_on_char ',' l) in
         List.iter (fun s -> step (MRegister s)) (batch_order items); None
       | "A" :: _ -> step (MAddCas (parse_cas_op op)); None
       | ["FL"] -> step MFlush; None
